@@ -408,6 +408,66 @@ func C10(c *core.Ctx) {
 		c.Decide(okDel, "R10.3", "completed-message-removed", p.Pos(reas.Pos()), "a reassembled message is deleted from the partial-message store before it is returned", "a completed message stays in the partial-message store: a later message reusing the sequence number is corrupted and memory grows")
 	}
 
+	// ---- R10.6 the cached header overhead is recomputed after every change of the options
+	// it is computed from, and only after the new options are in place
+	nOpt := 0
+	for _, fn := range p.FuncsIn(core.ModPath + "/fw/face") {
+		core.Instrs(fn, func(in ssa.Instruction) {
+			fa, _, ok := storeToField(in, "NDNLPLinkService", "options")
+			if !ok {
+				return
+			}
+			nOpt++
+			c.Funcs[core.FuncName(fn)] = true
+			isRecompute := func(x ssa.Instruction) bool {
+				cc, ok := core.IsCall(x, core.CalleeID{Pkg: "fw/face", Recv: "NDNLPLinkService", Name: "computeHeaderOverhead"})
+				if !ok {
+					return false
+				}
+				r, _ := core.CallArgs(cc)
+				return core.Same(r, fa.X)
+			}
+			fr := core.MustFollow(fn, core.After(in), isRecompute, nil)
+			c.Decide(fr.OK, "R10.6", "options-change-recomputes-overhead:"+core.FuncName(fn), c.Pos(in), "every store to the link-service options is followed by computeHeaderOverhead on all exits", core.FuncName(fn)+" changes the link-service options without recomputing the cached header overhead afterwards (it is computed from the previous options): after enabling local fields or fragmentation the frames exceed the MTU")
+		})
+	}
+	c.Floor("R10.6", "stores to NDNLPLinkService.options", nOpt, 2)
+
+	// ---- R10.7 a fragment of a message that has no entry yet always creates the entry
+	{
+		miss := &core.Atom{Name: "message-entry-exists", Match: func(cond ssa.Value) (int, int) {
+			e, ok := core.Strip(cond).(*ssa.Extract)
+			if ok && e.Index == 1 {
+				if lk, ok := e.Tuple.(*ssa.Lookup); ok {
+					if _, okF := core.FieldOf(lk.X, "partialMessageStore"); okF {
+						return 1, -1
+					}
+				}
+			}
+			return 0, 0
+		}}
+		isCreate := func(in ssa.Instruction) bool {
+			mu, ok := in.(*ssa.MapUpdate)
+			if !ok {
+				return false
+			}
+			_, okF := core.FieldOf(mu.Map, "partialMessageStore")
+			_, isMake := core.Strip(mu.Value).(*ssa.MakeSlice)
+			return okF && isMake
+		}
+		okCreate, n := true, 0
+		for _, f := range core.EdgeFacts(reas, miss) {
+			if f.Holds {
+				continue
+			}
+			n++
+			if !core.MustFollow(reas, core.Point{Block: f.E.To, Idx: 0}, isCreate, nil).OK {
+				okCreate = false
+			}
+		}
+		c.Decide(okCreate && n > 0, "R10.7", "unknown-message-creates-entry", p.Pos(reas.Pos()), "on the edge asserting that the message has no entry, the entry is always created", "reassemblePacket does not create the partial-message entry whenever the message is unknown (creation depends on something other than the missing entry, e.g. on the fragment index): fragments arriving before fragment 0 are lost and the packet is never delivered")
+	}
+
 	// ---- R10.5 reassembly arguments and bounds
 	for _, ci := range core.FindCalls(recv, core.CalleeID{Pkg: "fw/face", Recv: "NDNLPLinkService", Name: "reassemblePacket"}) {
 		_, a := core.CallArgs(ci.Common())
